@@ -64,7 +64,12 @@ _S: dict = {"allocated": None, "contract_viol": []}
 def setup_worker() -> None:
     import zorg.storage.sql._zid_manager as zm
 
-    if contracts.AVAILABLE:
+    if not hasattr(zm, "_get_next_id"):
+        contracts.bump("missing.contract_evals._get_next_id")
+        contracts.bump("missing.chain.steps")
+    if not hasattr(getattr(zm, "ZIDManager", None), "get_next"):
+        contracts.bump("missing.contract_evals.get_next")
+    if contracts.AVAILABLE and hasattr(zm, "_get_next_id") and hasattr(getattr(zm, "ZIDManager", None), "get_next"):
         ic = contracts.icontract
 
         def successor_is_next_in_odometer_order(last_id, result):
@@ -122,6 +127,9 @@ def plan(tier: str, seed: int) -> list[dict]:
 def unit_chain(acc: Acc) -> None:
     import zorg.storage.sql._zid_manager as zm
 
+    if not hasattr(zm, "_get_next_id"):
+        acc.not_judged += 1  # the successor function no longer exists under that name: histories / exhaustion still decide
+        return
     cur = "00"
     i = 0
     acc.evaluations += 1
